@@ -211,6 +211,9 @@ func (p *PathState) learn(t *Term) {
 		p.known[t.a] = false
 	} else {
 		p.known[t] = true
+		if t.op == OpOr {
+			p.ors = append(p.ors, t)
+		}
 	}
 	if a, neg, ok := atomOf(t); ok {
 		p.learnAtom(a, neg)
@@ -230,6 +233,23 @@ func (p *PathState) quick(t *Term) (val, ok bool) {
 	if a, neg, ok := atomOf(t); ok {
 		if v, ok := p.evalAtom(a); ok {
 			return v != neg, true
+		}
+	}
+	// unit propagation through disjunctions known to hold: (a or t) with a false => t
+	if !p.inOrs {
+		p.inOrs = true
+		defer func() { p.inOrs = false }()
+		for _, o := range p.ors {
+			if o.b == t {
+				if v, ok := p.quick(o.a); ok && !v {
+					return true, true
+				}
+			}
+			if o.a == t {
+				if v, ok := p.quick(o.b); ok && !v {
+					return true, true
+				}
+			}
 		}
 	}
 	switch t.op {
